@@ -14,7 +14,14 @@ equal to solitary executions, all under the race detector. -/
 namespace Props.C11
 open ExecM Product
 
-theorem facts_safe : FactsSafe Gen.exec := by decide
+/-- execute.go's skeleton as the machine assumes it, and gateway.go: `Gateway.Execute` builds a fresh
+    `ExecutionContext` per call — the plan chosen for this request and this request's own variables — and never
+    assigns to it afterwards (so nothing of one request's context can be seen by another) -/
+def IsolationFactsSafe : Prop := FactsSafe Gen.exec ∧ Gen.execContextFresh = true
+
+instance : Decidable IsolationFactsSafe := by unfold IsolationFactsSafe; exact inferInstance
+
+theorem facts_safe : IsolationFactsSafe := by decide
 
 /-- n concurrent executions over one plan: each request's component evolves by its own actions only -/
 theorem executions_do_not_interfere (cfg : Cfg) (ts : Tasks) (sched : List (Nat × Act)) (ss ss' : List St)
